@@ -117,6 +117,8 @@ def use_repo():
     # consults it for a decision; a tree that turns timeout=0 into some default budget then
     # misbehaves deterministically (50 reads per virtual second) instead of "sometimes".
     _LIB["timers"].perf_counter = DefaultVirtualClock()
+    import logging
+    logging.getLogger("ctparse").addHandler(logging.NullHandler())  # keep stderr quiet
     return _LIB
 
 
